@@ -66,6 +66,18 @@ class UserSizedIter(abc.Iterable):
         return self._items.pop(0)
 
 
+class UserRev(abc.Reversible):
+    """reversible that is no collection: iterable both ways, but neither sized nor a container"""
+    def __init__(self, items=()):
+        self._items = list(items)
+
+    def __iter__(self):
+        return iter(self._items)
+
+    def __reversed__(self):
+        return reversed(self._items)
+
+
 class UserCont(abc.Container):
     """container that is neither iterable nor sized"""
     def __init__(self, items=()):
@@ -159,7 +171,7 @@ CLASSES = [
     ('ValuesView', abc.ValuesView), ('ItemsView', abc.ItemsView), ('Callable', abc.Callable),
     ('UserSeq', UserSeq), ('UserColl', UserColl), ('UserIter', UserIter), ('UserCont', UserCont),
     ('UserMap', UserMap), ('UserList', UserList), ('UserA', UserA), ('UserB', UserB), ('UserC', UserC),
-    ('UserSizedIter', UserSizedIter),
+    ('UserSizedIter', UserSizedIter), ('UserRev', UserRev),
 ]
 CLS = dict(CLASSES)
 CLS_ID = {n: i for i, (n, _) in enumerate(CLASSES)}
@@ -220,7 +232,12 @@ def make_spy_classes(spy):
             ns['__len__'] = __len__
         if indexable:
             def __getitem__(self, i):
-                spy.rec('getitem', self)
+                if isinstance(i, slice):
+                    # a slice reads as many items as it selects
+                    for _ in range(max(1, len(range(*i.indices(len(self)))))):
+                        spy.rec('getitem', self)
+                else:
+                    spy.rec('getitem', self)
                 return base.__getitem__(self, i)
             ns['__getitem__'] = __getitem__
         if iterable:
@@ -292,6 +309,7 @@ def make_spy_classes(spy):
     out['UserSeq'] = mk(UserSeq, 'UserSeq')
     out['UserColl'] = mk(UserColl, 'UserColl', indexable=False)
     out['UserIter'] = mk(UserIter, 'UserIter', sized=False, indexable=False)
+    out['UserRev'] = mk(UserRev, 'UserRev', sized=False, indexable=False)
     out['UserSizedIter'] = mk(UserSizedIter, 'UserSizedIter', indexable=False)
     out['UserMap'] = mk(UserMap, 'UserMap', mapping=True)
     return out
